@@ -50,7 +50,7 @@ func (s *sentinel) walk(v reflect.Value) {
 		}
 		s.seen[p] = true
 		s.objs++
-		s.raw(unsafe.Pointer(p), v.Type().Elem().Size())
+		s.raw(v.UnsafePointer(), v.Type().Elem().Size())
 		s.walk(v.Elem())
 	case reflect.Interface:
 		if !v.IsNil() {
@@ -70,7 +70,7 @@ func (s *sentinel) walk(v reflect.Value) {
 			return
 		}
 		s.seen[key] = true
-		s.raw(unsafe.Pointer(p), uintptr(v.Cap())*v.Type().Elem().Size())
+		s.raw(v.UnsafePointer(), uintptr(v.Cap())*v.Type().Elem().Size())
 		var full reflect.Value
 		if v.CanInterface() {
 			full = v.Slice(0, v.Cap())
